@@ -399,18 +399,13 @@ def _asserts_state(fi, callee_name):
     return True
 
 
-def _check_admissibility(prog, ctx, fi, ad):
+def _admissible_before(fi, target, base):
+    """Is the CFG node `target` of function `fi` dominated by the completion of a loop over all dimensions that rejects (falsy
+    return) unless the backward neighbour of the vector `base` in the loop dimension is in the OLD set or below lmin?
+    Returns (ok, detail)."""
     c = cfg_of(fi)
     tm = Terms(fi.node, max_depth=0)
-    an = R.cfg_node(fi, ad)
-    key = R.key_of(fi, "activate:%s" % src(ad.args[0]) if ad.args else "activate")
-    added = ad.args[0] if ad.args else None
-    # the list whose tuple is added
-    base = None
-    if isinstance(added, ast.Call) and isinstance(added.func, ast.Name) and added.func.id == "tuple" and isinstance(added.args[0], ast.Name):
-        base = added.args[0].id
-    loops = [n for n in c.nodes if n.kind == "for" and c.edge_dominates(n, False, an)]
-    good_loop = None
+    loops = [n for n in c.nodes if n.kind == "for" and c.edge_dominates(n, False, target)]
     detail = "no loop over all dimensions whose completion dominates the activation"
     for ln in loops:
         loop = ln.ast
@@ -420,7 +415,6 @@ def _check_admissibility(prog, ctx, fi, ad):
         if not isinstance(loop.target, ast.Name):
             continue
         k = loop.target.id
-        # the copy with component k decremented
         copy_name = None
         for st in loop.body:
             if isinstance(st, ast.Assign) and isinstance(st.targets[0], ast.Subscript) and isinstance(st.targets[0].value, ast.Name) \
@@ -435,7 +429,6 @@ def _check_admissibility(prog, ctx, fi, ad):
         if copy_name is None:
             detail = "no backward neighbour (component of the loop dimension decremented by one) is built in the loop"
             continue
-        # the copy must be a copy of the same vector
         copies_base = False
         for st in loop.body:
             if isinstance(st, ast.Assign) and isinstance(st.targets[0], ast.Name) and st.targets[0].id == copy_name:
@@ -445,7 +438,6 @@ def _check_admissibility(prog, ctx, fi, ad):
         if not copies_base:
             detail = "the backward neighbour is not built from the vector that is activated"
             continue
-        # the rejecting test: every test node in the loop whose True edge leaves the function with a falsy value
         exits = []
         for n in c.nodes:
             if n.kind == "stmt" and isinstance(n.ast, ast.Return) and c.in_loop(n, loop):
@@ -462,19 +454,51 @@ def _check_admissibility(prog, ctx, fi, ad):
                     conds.add(g)
         copy_t = ("copy", "tuple", ("n", copy_name))
         old = ("a", ("n", fi.self_name), "old_index_set")
-        act = ("a", ("n", fi.self_name), "active_index_set")
         lm = ("a", ("n", fi.self_name), "lmin")
         comp = ("s", ("n", copy_name), ("n", k))
         member_old = ("cmp", "NotIn", copy_t, old) in conds
         above_lmin = ("cmp", "LtE", lm, comp) in conds
         uses_union = any(g[0] == "cmp" and g[1] == "NotIn" and g[2] == copy_t and g[3] != old for g in conds)
         if member_old and above_lmin and not uses_union and len(conds) == 2:
-            good_loop = loop
-            break
+            return True, "loop at line %d" % loop.lineno
         detail = "the rejection condition is %s; required: (backward neighbour not in self.old_index_set) and (its component >= self.lmin)" \
                  % sorted(show(g) for g in conds)
-    ctx.check(good_loop is not None, "C01.D3", key, fi.loc(ad),
-              "activation is dominated by a loop over all dimensions that rejects unless every backward neighbour is in the old set or below lmin",
+    return False, detail
+
+
+def _check_admissibility(prog, ctx, fi, ad):
+    c = cfg_of(fi)
+    tm = Terms(fi.node, max_depth=0)
+    an = R.cfg_node(fi, ad)
+    key = R.key_of(fi, "activate:%s" % src(ad.args[0]) if ad.args else "activate")
+    added = ad.args[0] if ad.args else None
+    base = None
+    if isinstance(added, ast.Call) and isinstance(added.func, ast.Name) and added.func.id == "tuple" and isinstance(added.args[0], ast.Name):
+        base = added.args[0].id
+    ok, detail = _admissible_before(fi, an, base)
+    if not ok:
+        # the test may have been extracted into a helper of the same class:  if not self._admissible(levelvec): return False
+        for (g, gn) in R.dominating_guards(fi, an, tm):
+            if g[0] == "call" and g[1][0] == "a" and g[1][1] == ("n", fi.self_name) and fi.cls is not None:
+                helper = prog.lookup_method(fi.cls, g[1][2]) or prog.lookup_method(fi.cls, "_%s%s" % (fi.cls.name, g[1][2]))
+                if helper is None or helper is fi:
+                    continue
+                hp = [p for p in helper.params if p != helper.self_name]
+                args = list(g[2])
+                if ("n", base) not in args or len(args) > len(hp):
+                    continue
+                hbase = hp[args.index(("n", base))]
+                if any(isinstance(n, ast.Name) and isinstance(n.ctx, ast.Store) and n.id == hbase for n in walk_local(helper.node)):
+                    continue
+                hc = cfg_of(helper)
+                truthy = [r for r in R.return_paths(helper)[0] if not (isinstance(r.ast.value, ast.Constant) and not r.ast.value.value)]
+                falls = R.return_paths(helper)[1] + R.return_paths(helper)[2]
+                if truthy and not falls and all(_admissible_before(helper, r, hbase)[0] for r in truthy):
+                    ok, detail = True, "admissibility loop in helper %s" % helper.qual
+                    ctx.touch(helper)
+                    break
+    ctx.check(ok, "C01.D3", key, fi.loc(ad),
+              "activation is dominated by a loop over all dimensions that rejects unless every backward neighbour is in the old set or below lmin (%s)" % detail,
               "`%s` can activate an inadmissible index: %s" % (src(ad), detail))
 
 
